@@ -171,6 +171,43 @@ func (p c10) crowdedDefinitions(c *core.Ctx) {
 	c.Nontrivial(fmt.Sprintf("crowded|%d|%d|%d", nH, nF, c.Index))
 }
 
+// wrappedSliceCycle: a cycle that is closed through a by-type slice (alpha -> hub, hub collects alpha among
+// other candidates) and whose entry component a post-processor wraps after initialisation: whether the stale
+// early version in the hub's slice is noticed does not depend on the position alpha has in that slice.
+func (p c10) wrappedSliceCycle(c *core.Ctx) {
+	g := world.NewG(c.Rng)
+	alpha := g.AddNode([]int{0, 1, 12}[c.Rng.Intn(3)], "a-alpha") // entered first (eager components are created in name order)
+	hub := g.AddNode([]int{2, 13}[c.Rng.Intn(2)], "hub")
+	g.EdgeByName(alpha, hub, "", "iface")
+	g.SetTag(hub, []string{"SA0", "SA1", "AnyS"}[c.Rng.Intn(3)], "wire", "")
+	for x, nx := 0, 1+c.Rng.Intn(3); x < nx; x++ {
+		g.AddNode([]int{0, 1, 12}[c.Rng.Intn(3)], fmt.Sprintf("m-other-%d", x)) // further IAs
+	}
+	plan := map[string]world.SubPlan{"a-alpha": []world.SubPlan{{After: true}, {Before: true}}[c.Rng.Intn(2)]}
+	var sigs []string
+	for o := 0; o < 10; o++ {
+		g.ShuffleOrders()
+		if o%2 == 0 {
+			g.Sc.Order.DefMode, g.Sc.Order.PermK = "perm", o/2
+		}
+		r := world.Start(g.Sc, world.Options{Extra: []any{world.NewSubstituter(plan)}})
+		c.Count("starts", 1)
+		if abnormal(r.Outcome()) {
+			c.Fail("", "cycle through a by-type slice with a wrapped entry component: "+core.Short(r.OutcomeDetail(), 300), failDetail(g.Sc, r, map[string]any{"plan": plan}))
+			return
+		}
+		sigs = append(sigs, r.Outcome())
+	}
+	for i := 1; i < len(sigs); i++ {
+		if sigs[i] != sigs[0] {
+			c.Fail("", fmt.Sprintf("same scenario, different orders: a cycle closed through a by-type slice whose entry component is wrapped after initialisation: run 0 -> %s, run %d -> %s", sigs[0], i, sigs[i]), failDetail(g.Sc, nil, map[string]any{"outcomes": sigs, "plan": plan}))
+			return
+		}
+	}
+	c.Count("family_wrapped_slice_cycle", 1)
+	c.Nontrivial("wrappedslice|" + g.Sc.GraphSig() + fmt.Sprint(plan))
+}
+
 // tiedUnnamed: a single-valued point whose best-ranked candidates are several un-named components (a genuine
 // tie) next to named ones and no Primary: whatever the order, it receives one of the tied ones - never a
 // lower-ranked named candidate.
@@ -231,6 +268,10 @@ func (p c10) Run(c *core.Ctx) {
 	}
 	if c.Index%25 == 17 {
 		p.crowdedDefinitions(c)
+		return
+	}
+	if c.Index%25 == 2 {
+		p.wrappedSliceCycle(c)
 		return
 	}
 	orders := tierN(c.Tier, 12, 24)
